@@ -916,6 +916,8 @@ void apply_logic_net(bool const *inp, {BITS_TO_DTYPE[32]} *out, size_t len) {{
 
     def _get_output_size(self) -> int:
         """Get the total output size."""
+        if getattr(self, "_loaded_output_size", None) is not None:
+            return self._loaded_output_size
         if self.linear_layers:
             return len(self.linear_layers[-1][0])
         else:
@@ -1045,11 +1047,17 @@ void apply_logic_net(bool const *inp, {BITS_TO_DTYPE[32]} *out, size_t len) {{
         return torch.tensor(out & 1)
 
     @staticmethod
-    def load(save_lib_path: str, input_shape: tuple, num_classes: int = None, num_bits: int = 64):
-        """Load a compiled network from a shared library."""
+    def load(save_lib_path: str, input_shape: tuple, num_classes: int = None, num_bits: int = 64,
+             output_size: int = None):
+        """Load a compiled network from a shared library.
+
+        A network without GroupSum (num_classes=None) returns its last layer's outputs; their number is not
+        stored in the library and must be given as output_size.
+        """
         self = CompiledLogicNet(None, num_bits=num_bits)
         self.input_shape = input_shape
         self.num_classes = num_classes
+        self._loaded_output_size = output_size
 
         # Load a private copy: dlopen caches by path name and would otherwise hand back a
         # previously loaded library after the file at this path has been replaced.
